@@ -475,6 +475,39 @@ pub fn sparse_tie_triple(n: u32, es: u32) -> BoxedStrategy<(u64, u64, u64)> {
     .boxed()
 }
 
+/// multiplication operands whose exact product is `M * 2^k + 1` in units of its last place: a short
+/// leading part (often exactly a rounding threshold) plus ONE distant set bit — the product-side
+/// analogue of `sparse_tie_triple`.  op code 2 (mul) is implied.
+pub fn sparse_mul_pair(n: u32, es: u32) -> BoxedStrategy<(u64, u64)> {
+    let table = deep_pairs(n, es);
+    (any::<u64>(), any::<u64>(), pair(n, es)).prop_map(move |(r1, r2, fb)| {
+        let fa_max = (n as i32 - 3 - es as i32).max(2) as u32;
+        let (a_sig, b_sig) = if r1 >> 60 < 8 && !table.is_empty() {
+            let (a, b, _) = table[((r2 >> 8) % table.len() as u64) as usize];
+            (a, b)
+        } else {
+            let wa = 2 + (r1 >> 8) as u32 % (fa_max - 1);
+            let wb = 2 + (r1 >> 16) as u32 % (fa_max - 1);
+            let a_sig = ((r2 & ((1u64 << wa) - 1)) | 1) | (1u64 << (wa - 1));
+            let k = (2 + (r1 >> 24) as u32 % (wb - 1).max(1)).min(wb);
+            let t = if wb > k { (r2 >> 40) & ((1u64 << (wb - k)) - 1) } else { 0 };
+            (a_sig, inv_mod_pow2(a_sig, k) | (t << k))
+        };
+        if b_sig == 0 {
+            return fb;
+        }
+        let ms = max_scale(n, es) / 3;
+        let ea = ((r1 >> 32) % (2 * ms as u64 + 1)) as i32 - ms - 64 + a_sig.leading_zeros() as i32;
+        let eb = ((r1 >> 44) % 9) as i32 - 4 - 64 + b_sig.leading_zeros() as i32;
+        let (da, db) = (Dy::new(r2 & 1 != 0, a_sig, ea), Dy::new(r2 & 2 != 0, b_sig, eb));
+        match (representable(n, es, &da), representable(n, es, &db)) {
+            (Some(a), Some(b)) => if r2 & 4 != 0 { (a, b) } else { (b, a) },
+            _ => fb,
+        }
+    })
+    .boxed()
+}
+
 /// pairs of odd significands (A, B, k), both at most w = n-3-es bits wide, with A*B = 1 (mod 2^k)
 /// for k larger than w: products whose lowest set bit is isolated deeper than either factor's width.
 /// Found by a bounded scan (deterministic); cached per format.
